@@ -56,6 +56,33 @@ Proof.
 Qed.
 Print Assumptions C09_known_F4_close_never_returns.
 
+(* 1c. ... and what F4 does NOT block: once the drain of close() has run (nobody is between the flag and the drain),
+       every entry left in the stream tables is a late entry and every stream handle's inbound queue is closed --
+       readers get end-of-stream, pending opens have their verdict (C09_drain_releases) -- whether or not that
+       close() is now queued for ever behind the stalled write. No hypothesis about the transport. *)
+Theorem C09_released_despite_stall : forall progs buf pend sched,
+  let s := run (init progs buf pend) sched in
+  closed s = true -> drained s ->
+  (forall sid u, In (sid, u) (table s) -> late_entry s sid u) /\
+  (forall sid u, In (sid, u) (rtable s) -> late_entry_r s sid u) /\
+  (forall u sid, t_sid (tasks s u) = Some sid -> t_rclosed (tasks s u) = true \/ in_window_r (pcof s u) sid).
+Proof. exact (fun progs buf pend sched => released_after_drain sched progs buf pend). Qed.
+Print Assumptions C09_released_despite_stall.
+
+(* both at once: task 1 is parked in a read; task 2's write is inside the transport when task 3 makes it stall; the
+   owner (task 4) closes: its close() is queued behind task 2 for ever (1b) -- and task 1's read has returned
+   end-of-stream all the same *)
+Example C09_released_despite_stall_nonvacuous :
+  let progs := [[]; [COpen; CRead]; [CWrite {| fcmd := Waste; fsid := 0; fdata := [1] |}]; [CStall]; [CClose]] in
+  let s := run (init progs false []) [1;1;1;1;1;1;1;1;1; 2;2;2;2; 3; 2; 4;4;4;4; 1;1]%nat in
+  wedged s 2%nat /\ closed s = true /\ drained s /\ shut s = false /\ pcof s 4%nat = PC2wait AfterClose WkPlain /\
+  t_res (tasks s 1%nat) = [ResOk; ResEof] /\ finished s 1%nat.
+Proof.
+  cbv zeta. unfold wedged, in_transport, finished, drained. repeat split; try (vm_compute; reflexivity).
+  - vm_compute. eauto.
+  - intros x. destruct x as [|[|[|[|[|x]]]]]; vm_compute; reflexivity.
+Qed.
+
 (* the finding is not vacuous: task 1 writes a frame and is inside the transport when task 2 makes it stall; the
    owner (task 3) calls close(): the session is flagged closed, the tables are drained -- and close() sits in the
    lock queue behind task 1, under every continuation *)
@@ -81,12 +108,23 @@ Print Assumptions C09_bounded_steps.
 Theorem C09_released_promptly : forall progs buf pend sched0,
   let n := length progs in
   let s0 := run (init progs buf pend) sched0 in
-  (forall u, In u sched0 -> (u < n)%nat) ->
   let N := S (sumf (fun t => progw (nth t progs [])) (seq 0 n)) in
   let s := run s0 (rounds n N) in
   forall t, finished s t \/ awaits_peer s t \/ awaits_app s t \/ transport_blocked s t.
 Proof. exact fair_release. Qed.
 Print Assumptions C09_released_promptly.
+
+(* 2a'. the same under ANY fair schedule, not only round-robin: a schedule that can be cut into more than
+        (sum of budgets) segments each of which grants every task at least once, in any order, with any repetitions *)
+Theorem C09_released_promptly_any_fair_schedule : forall progs buf pend sched0 segs,
+  let n := length progs in
+  let s0 := run (init progs buf pend) sched0 in
+  Forall (covering n) segs ->
+  (sumf (fun t => progw (nth t progs [])) (seq 0 n) < length segs)%nat ->
+  let s := run s0 (concat segs) in
+  forall t, finished s t \/ awaits_peer s t \/ awaits_app s t \/ transport_blocked s t.
+Proof. exact fair_release_any. Qed.
+Print Assumptions C09_released_promptly_any_fair_schedule.
 
 (* 2b. ... and when that session is dead (closed, by whatever cause) and its transport has not stalled, nobody is
        parked in a read and nobody is inside close(): every task has finished, except the forwarding task parked
@@ -95,7 +133,6 @@ Print Assumptions C09_released_promptly.
 Theorem C09_dead_session_at_rest : forall progs buf pend sched0,
   let n := length progs in
   let s0 := run (init progs buf pend) sched0 in
-  (forall u, In u sched0 -> (u < n)%nat) ->
   let N := S (sumf (fun t => progw (nth t progs [])) (seq 0 n)) in
   let s := run s0 (rounds n N) in
   closed s = true -> stalled s = false ->
